@@ -7,6 +7,9 @@ echo "== demo on clean tree"; PYTHONPATH=/repo/src timeout 300 /venv/bin/python 
 git apply "$patch" || { echo "patch does not apply"; exit 2; }
 echo "== demo with patch"; PYTHONPATH=/repo/src timeout 300 /venv/bin/python -W ignore "$demo" >/tmp/demo_patched.out 2>&1; echo "rc=$? $(tail -2 /tmp/demo_patched.out | tr '\n' ' ' | cut -c1-300)"
 for id in "$@"; do
+  cp /verif/evidence/$id.json /tmp/evidence_$id.json.keep 2>/dev/null
   echo "== check $id with patch"; (cd /verif && timeout 1500 ./check "$id" --tier quick 2>&1 | head -8; echo "rc=${PIPESTATUS[0]}")
+  # evidence written while a seeded change is applied is not evidence about the unchanged tree
+  cp /tmp/evidence_$id.json.keep /verif/evidence/$id.json 2>/dev/null; rm -f /tmp/evidence_$id.json.keep
 done
 git checkout -- . ; git status --short | head -3
